@@ -74,6 +74,7 @@ type ipamPod struct {
 	RepV6     string
 	GoneAt    int // reconcile counter when (gone && DelDone && Flushed) became true
 	AddFailed bool // the latest ADD failed (the agent rolled it back)
+	Restarts  int  // sandboxes of this UID that were torn down and replaced while the pod stayed
 }
 
 type ipamMon struct {
@@ -359,9 +360,16 @@ func (m *ipamMon) observeNodeCR(before, after *v1beta1.Node) {
 						if bv.PodUID == "" && incarnations > 1 {
 							successor = true
 						}
+						restarted := false
+						if q := m.byUID[bv.PodUID]; q != nil && bv.PodUID != "" && q.Restarts > 0 && q.Sandbox {
+							restarted = true
+						}
 						switch {
 						case successor:
 							site += "/same-name-successor"
+						case restarted && strings.HasPrefix(why, "pod object is gone but its sandbox"):
+							// the teardown report of the UID's earlier sandbox is still in NodeRuntime
+							site += "/sandbox-restarted"
 						case bv.PodUID == "" && !strings.HasPrefix(why, "pod object exists"):
 							site += "/no-uid" // legacy entry: nothing to correlate a teardown report with
 						}
